@@ -503,7 +503,11 @@ def gen_surplus_exchange(rng, split=None):
     resps[k] = resps[k] + (rng.pick(SURPLUS) if rng.chance(0.8) else gen_response(rng))
     case = {"mode": mode, "client_hex": hx(b"".join(reqs)),
             "resps": [{"data_hex": hx(x), "close": False} for x in resps], "edits": []}
-    if split or (split is None and rng.chance(0.4)):
+    # the split form needs the next request to arrive in a LATER client segment than request k: possible only where request k
+    # ends where its generator meant it to (a mutated request may announce a longer body and swallow the head of the next one)
+    pq = R.parse_requests(b"".join(reqs))
+    boundary_ok = len(pq.messages) > k and pq.messages[k]["end"] == len(b"".join(reqs[:k + 1]))
+    if (split or (split is None and rng.chance(0.4))) and boundary_ok:
         # split exactly at the boundary; the surplus still arrives before the next request is sent (the client's next
         # request comes in a later segment, server segments first) — surplus that arrives after the next request has been
         # forwarded is indistinguishable from its response for any proxy
